@@ -48,6 +48,9 @@ pub fn eval(ctx: &Ctx, c: &Case) {
 }
 
 pub fn replay(ctx: &Arc<Ctx>, v: &Value) {
+    if crate::cold::replay(ctx, v) {
+        return;
+    }
     let c: Case = serde_json::from_value(v.clone()).expect("C04 case");
     eval(ctx, &c);
 }
@@ -232,6 +235,7 @@ pub fn run(ctx: &Arc<Ctx>) {
     ctx.sample(serde_json::to_value(&cases[cases.len() - 1]).unwrap());
     run_cases(ctx, &cases, 16, eval);
     let _ = hb;
+    crate::cold::check(ctx, "C04");
 }
 
 /// one-off build-time tool: search messages whose signature under (Annex d, Annex k) has r < 2^224 or
